@@ -147,3 +147,93 @@ def describe(m, args, result=None):
                     d[k] = e.as_string() if z3.is_string_value(e) else str(e)
             out[n] = d
     return out
+
+
+# ---------------------------------------------------------------- compound markers and atom groups: the induction step
+def compound_theory(ix):
+    """T-MARK with hashes: children are abstract markers on which == is assumed to be an equivalence compatible with hash (the induction
+    hypothesis of the structural induction over marker depth; its base is the atom-level part above)"""
+    from pyvc.theories.marker import MK, MarkerTheory, eqm
+    hm = z3.Function("hash_marker", MK, z3.IntSort())
+    HLM = z3.Function("hash_tuple_of_markers", z3.ArraySort(z3.IntSort(), MK), z3.IntSort(), z3.IntSort())
+    HLS = z3.Function("hash_tuple_of_strings", z3.ArraySort(z3.IntSort(), z3.StringSort()), z3.IntSort(), z3.IntSort())
+
+    class Th(MarkerTheory):
+        def hash_of(self, ex, v):
+            return hm(v.term)
+
+        def hash_alist(self, ex, l):
+            return (HLM if l.shape is self.shape else HLS)(l.arr, l.n)
+
+        def builtin(self, ex, name, args, kw):
+            from pyvc.values import AList
+            if name == "tuple" and len(args) == 1 and isinstance(args[0], AList):
+                l = args[0]
+                return AList(l.shape, l.arr, z3.IntVal(0), l.n, True)
+            return NotImplemented
+    th = Th(ix)
+    x, y, zz = z3.Const("x!ih", MK), z3.Const("y!ih", MK), z3.Const("z!ih", MK)
+    ih = [z3.ForAll([x], eqm(x, x)), z3.ForAll([x, y], eqm(x, y) == eqm(y, x)),
+          z3.ForAll([x, y, zz], z3.Implies(z3.And(eqm(x, y), eqm(y, zz)), eqm(x, zz))),
+          z3.ForAll([x, y], z3.Implies(eqm(x, y), hm(x) == hm(y)))]
+
+    def tuple_hash_law(ex, a, c):
+        """A-STDLIB: the hash of a tuple is a function of its length and of the hashes of its items"""
+        i = z3.Int(fresh_name("hi"))
+        if a.shape is th.shape:
+            item = lambda l: hm(z3.Select(l.arr, i))
+            H = HLM
+        else:
+            item = lambda l: ex.hash_of(z3.Select(l.arr, i))
+            H = HLS
+        return z3.Implies(z3.And(a.n == c.n, z3.ForAll([i], z3.Implies(z3.And(0 <= i, i < a.n), item(a) == item(c)))), H(a.arr, a.n) == H(c.arr, c.n))
+    return th, ih, tuple_hash_law
+
+
+COMPOUND_CLASSES = ["MultiMarker", "MarkerUnion", "EqualityMarkerUnion", "InequalityMultiMarker", "MarkerExpression", "AnyMarker"]
+
+
+def sym_compound(th, cname, name):
+    from pyvc.values import ListS, STR
+    ix = th.index
+    if cname in ("MultiMarker", "MarkerUnion"):
+        l = ListS(th.shape, is_tuple=True).fresh(name + "_markers")
+        return Obj(ix.cls(cname), {"markers": l}), [l.n >= 0], [l]
+    if cname in ("EqualityMarkerUnion", "InequalityMultiMarker"):
+        d = ListS(STR).fresh(name + "_values")
+        return Obj(ix.cls(cname), {"name": z3.String(fresh_name(name + "_n")), "values": Obj(ix.cls("OrderedSet"), {"_data": d})}), [d.n >= 0], [d]
+    o, pre = sym(th, cname, name)
+    return o, pre, []
+
+
+def compound_cases(th, ih, law):
+    both = lambda ls1, ls2, ex: [law(ex, a, c) for a in ls1 for c in ls2 if a.shape is c.shape]
+    for cx in COMPOUND_CLASSES[:4]:
+        x, px, lx = sym_compound(th, cx, "x")
+        yield {"name": f"reflexive.{cx}", "pre": px + ih, "thunk": (lambda ex, x=x: ex.equals(x, x)), "post": (lambda ex, v: [("law.C13.step.reflexive", b(v))]), "args": ()}
+        for cy in COMPOUND_CLASSES:
+            y, py, ly = sym_compound(th, cy, "y")
+
+            def thunk(ex, x=x, y=y, lx=lx, ly=ly):
+                for ax in both(lx, ly, ex):
+                    ex.assume(ax)
+                exy, eyx = ex.equals(x, y), ex.equals(y, x)
+                if not ex.truth(exy):
+                    return (exy, eyx, None, None)
+                return (exy, eyx, ex.hash_of(x), ex.hash_of(y))
+
+            def post(ex, v):
+                exy, eyx, hx, hy = v
+                cl = [("law.C13.step.symmetric", b(exy) == b(eyx))]
+                if hx is not None:
+                    cl.append(("law.C13.step.hash", hx == hy))
+                return cl
+            yield {"name": f"pair.{cx}-{cy}", "pre": px + py + ih, "thunk": thunk, "post": post, "args": ()}
+        y, py, ly = sym_compound(th, cx, "y")
+        w, pw, lw = sym_compound(th, cx, "w")
+
+        def thunk3(ex, x=x, y=y, w=w):
+            if not ex.truth(ex.equals(x, y)) or not ex.truth(ex.equals(y, w)):
+                return True
+            return ex.equals(x, w)
+        yield {"name": f"triple.{cx}", "pre": px + py + pw + ih, "thunk": thunk3, "post": (lambda ex, v: [("law.C13.step.transitive", b(v))]), "args": ()}
